@@ -336,16 +336,26 @@ def cmd_sensitivity(ns):
             baseline = None
             if ns.baseline:
                 proc = subprocess.run(
-                    ["/venv/bin/python", "-m", "pytest", "-q", "-x", "-p",
-                     "no:cacheprovider", "--timeout=900",
-                     "--deselect", "tests/test_audio/test_audio.py::test_can_load_clip_from_24_bit_depth_wav",
-                     "--deselect", "tests/test_audio/test_io.py::test_audio_to_bytes",
-                     "--deselect", "tests/test_audio/test_media_info.py::test_can_read_media_info",
-                     ],
+                    ["/venv/bin/python", "-m", "pytest", "-q", "-p",
+                     "no:cacheprovider", "--timeout=900", "-rf"],
                     cwd=scratch, capture_output=True, text=True,
                     env=dict(os.environ, PYTHONPATH=os.path.join(scratch, "src")),
                 )
-                baseline = proc.stdout.strip().splitlines()[-1] if proc.stdout.strip() else proc.stderr[-200:]
+                known = {
+                    "test_can_load_clip_from_24_bit_depth_wav",
+                    "test_audio_to_bytes", "test_can_read_media_info",
+                    "test_read_clip",
+                }
+                failed = [
+                    ln.split()[1] for ln in proc.stdout.splitlines()
+                    if ln.startswith("FAILED ")
+                ]
+                extra = [f for f in failed if f.split("::")[-1].split("[")[0] not in known]
+                summary = proc.stdout.strip().splitlines()[-1].strip("= ") if proc.stdout.strip() else "?"
+                baseline = (
+                    f"suite-as-baseline ({summary})" if not extra
+                    else f"suite-FAILS {len(extra)} test(s) e.g. {extra[0]} ({summary})"
+                )
             started = time.time()
             proc = subprocess.run(
                 [sys.executable, os.path.join(HERE, "check.py"), "run", prop,
